@@ -18,11 +18,11 @@ func init() {
 		Technique: "property-based testing (rapid): metamorphic relations; bitwise differential across thread counts; race detector runs; fault injection through the DistModel interface with a process-level watchdog; command-line differential",
 		DesignRef: "DESIGN.md section 5, C08",
 		Runs: []runSpec{
-			{Name: "relations", Test: "^TestRelations$", Quick: 5000, Thorough: 40000, Shards: 8},
-			{Name: "threads", Test: "^TestThreads$", Quick: 2500, Thorough: 20000, Shards: 4},
-			{Name: "fault", Test: "^TestFault$", Quick: 1500, Thorough: 15000, Shards: 2},
-			{Name: "race", Test: "^TestRace$", Quick: 150, Thorough: 1500, Race: true, GoMaxProcs: []int{4, 1, 2, 16}},
-			{Name: "cli", Test: "^TestCLI$", Quick: 60, Thorough: 600, Shards: 2},
+			{Name: "relations", Test: "^TestRelations$", Quick: 4000, Thorough: 60000, Shards: 8},
+			{Name: "threads", Test: "^TestThreads$", Quick: 2500, Thorough: 40000, Shards: 4},
+			{Name: "fault", Test: "^TestFault$", Quick: 1000, Thorough: 3000, Shards: 6},
+			{Name: "race", Test: "^TestRace$", Quick: 150, Thorough: 2000, Race: true, GoMaxProcs: []int{4, 1, 2, 16}},
+			{Name: "cli", Test: "^TestCLI$", Quick: 60, Thorough: 800, Shards: 4},
 		},
 	})
 }
